@@ -1,7 +1,7 @@
 import NeoModel.Model.Wire.Identity
 /-
 C17 — the cached size/hash fields of a Transaction object and the cached hash of an Extensible payload object, as
-written (transaction.go:68-75 fields; 231-237 DecodeBinary; 112-119 Hash; 295-307 NewTransactionFromBytes; 343-348
+written (transaction.go:68-75 fields; 231-238 DecodeBinary; 112-119 Hash; 295-307 NewTransactionFromBytes; 343-348
 Size; 537-565 Copy; extensible.go:66-92). The object is the decoded value plus its caches; every method is a state
 transformer. Core Lean only.
 -/
@@ -20,9 +20,16 @@ def zeroHash : Bytes := List.replicate 32 0
 /-- `&transaction.Transaction{}` -/
 def TxObj.new : TxObj := ⟨⟨⟨0, 0, 0, 0, 0, [], [], []⟩, []⟩, 0, false, zeroHash⟩
 
-/-- `t.DecodeBinary(r)` on an EXISTING object (transaction.go:208-237): the content is replaced, the hash is recomputed
-(`createHash`), and `_ = t.Size()` fills the size ONLY IF it is still 0 — the size of a used object is kept. -/
-def TxObj.decode (H : Bytes → Bytes) (cv : Curve) (o : TxObj) (b : Bytes) : Option TxObj :=
+/-- `t.DecodeBinary(r)` on an EXISTING object (transaction.go:208-238, after fix 67279e2): the content is replaced,
+the hash is recomputed (`createHash`), the size is reset and recomputed (`t.size = 0; _ = t.Size()`). -/
+def TxObj.decode (H : Bytes → Bytes) (cv : Curve) (_o : TxObj) (b : Bytes) : Option TxObj :=
+  match (txC cv).dec b with
+  | none => none
+  | some (t, _) => some { v := t, hashed := true, hash := txHash H cv t, size := ((txC cv).enc t).length }
+
+/-- the rule BEFORE fix 67279e2 (kept for the regression example): `_ = t.Size()` without the reset filled the size
+only if it was still 0 — the size of a used object was kept. -/
+def TxObj.decodeOld (H : Bytes → Bytes) (cv : Curve) (o : TxObj) (b : Bytes) : Option TxObj :=
   match (txC cv).dec b with
   | none => none
   | some (t, _) =>
@@ -55,8 +62,14 @@ structure ExtObj where
 
 def ExtObj.new : ExtObj := ⟨⟨[], 0, 0, List.replicate 20 0, [], ⟨[], []⟩⟩, none⟩
 
-/-- `e.DecodeBinary(r)` (extensible.go:66-78): the content is replaced, the cached hash is NOT reset. -/
-def ExtObj.decode (o : ExtObj) (b : Bytes) : Option ExtObj :=
+/-- `e.DecodeBinary(r)` (extensible.go:66-79, after fix 264f88d): the cached hash is dropped, the content replaced. -/
+def ExtObj.decode (_o : ExtObj) (b : Bytes) : Option ExtObj :=
+  match extensibleC.dec b with
+  | none => none
+  | some (e, _) => some { v := e, hash := none }
+
+/-- the rule BEFORE fix 264f88d (kept for the regression example): the cached hash survived the decode. -/
+def ExtObj.decodeOld (o : ExtObj) (b : Bytes) : Option ExtObj :=
   match extensibleC.dec b with
   | none => none
   | some (e, _) => some { o with v := e }
